@@ -1114,6 +1114,7 @@ local void
 arReadNumber(Archive ar, Offset *plong, int len, int base)
 {
 	char *endp;
+	long value;
 	assert(len < sizeof ar_buffer);
 
 	/* First read the text */
@@ -1131,11 +1132,17 @@ arReadNumber(Archive ar, Offset *plong, int len, int base)
 
 
 	/* Convert ASCII into binary */
-	*plong = (Offset)strtol(ar_buffer, &endp, base);
+	value  = strtol(ar_buffer, &endp, base);
+	*plong = (Offset) value;
 
 
-	/* Validate the conversion (ignore ERANGE errors for now) */
-	if (!*endp || *endp == ' ') return;
+	/*
+	 * Validate the conversion (ignore ERANGE errors for now).  The
+	 * fields of a header are sizes, dates and ids: a negative one
+	 * (as a size it would send the reader back to a header already
+	 * read, for ever) is as bad as a malformed one.
+	 */
+	if (value >= 0 && (!*endp || *endp == ' ')) return;
 	comsgError(NULL, ALDOR_E_ArBadNumber, arToString(ar));
 	arPosition(ar) = 0;
 	arItem(ar) = 0;
